@@ -10,6 +10,7 @@
 package symgo
 
 import (
+	mrand "math/rand/v2"
 	"fmt"
 	"go/token"
 	"go/types"
@@ -44,6 +45,8 @@ type interpreter struct {
 	uniq               map[value]*value
 	inStdInit          bool
 	fnvStreams         map[*value][]value
+	digests            map[string]array
+	chacha             map[*value]*mrand.ChaCha8
 	syncMaps           map[*value]*omap
 	harnessAlias       map[string]string
 	mergeable          map[string]bool
